@@ -17,16 +17,31 @@ call-site metadata records that `tracing`'s logging macros generate. -/
 theorem expanded_statics_are_tracing_callsites :
     expandedStatics.all (fun s => s.tracingCallsite && !s.isMut) = true := by decide
 
-/-- `Context::new` and `Metrics::new` (and what they call by path: `Queue::new`, the `tracing`
-span helper) exist, and every external function they call only builds a fresh value
+/-- The constructors of `Context` and of `Metrics` (inherent functions without receiver returning
+the type — `Context::new`, `Metrics::new` today; tagged structurally) exist and, with what they call
+by path (`Queue::new`, the `tracing` span helper), call only external functions that build a fresh value
 (`Cell::new`, `Vec::new`, `Default::default`, …) or belongs to `tracing` (logging only). -/
 theorem fresh_state :
-    freshRoots.length = 2 ∧ freshRoots.all (fun n => freshFns.contains n) = true ∧
+    count (maskWhere fns (fun f => f.tag == .contextNew)) fns.length ≥ 1 ∧
+    count (maskWhere fns (fun f => f.tag == .metricsNew)) fns.length ≥ 1 ∧
+    freshRoots.all (fun n => freshFns.contains n) = true ∧
     maskOf freshRoots = maskWhere fns (fun f => f.tag == .contextNew || f.tag == .metricsNew) ∧
     freshExternal.all pureExternal = true := by decide +kernel
 
 /-- Non-vacuity: the allow-list rejects global-state APIs. -/
 example : pureExternal "std::thread::current" = false ∧ pureExternal "std::env::var" = false ∧
     pureExternal "core::cell::Cell::new" = true := by decide +kernel
+
+/-! ## The clause, structural half
+
+"Operations on one arena never affect another" — the part a source scan can say: the crate has no
+global state through which two arenas could communicate, and per-arena state is built from fresh
+values.  The behavioural statement is `Props/C20` (multi-arena model + correspondence runs). -/
+def no_state_shared_between_arenas_statement : Prop :=
+  rawStatics = [] ∧ expandedStatics.all (fun s => s.tracingCallsite && !s.isMut) = true ∧
+    freshExternal.all pureExternal = true
+
+theorem no_state_shared_between_arenas : no_state_shared_between_arenas_statement :=
+  ⟨statics, expanded_statics_are_tracing_callsites, fresh_state.2.2.2.2⟩
 
 end GcArena.C20s
